@@ -62,6 +62,8 @@ def maxRun : Str → Option Char → Nat → Nat → Nat
   | c :: cs, prev, cur, best =>
     if some c == prev then maxRun cs prev (cur + 1) best else maxRun cs (some c) 1 (max cur best)
 
-def nontrivial (s : Str) : Bool := multibyteBeforeDelim s false || 32 ≤ maxRun s none 0 0
+/-- … or when it carries a raw `U+0001` (the delimiter of the parser's own string-literal placeholders) -/
+def nontrivial (s : Str) : Bool :=
+  multibyteBeforeDelim s false || 32 ≤ maxRun s none 0 0 || s.contains (Char.ofNat 1)
 
 end C05
